@@ -473,7 +473,7 @@ func TestC20(t *testing.T) {
 	defer col.Flush()
 	stCfg := gen.StateCfg{D: gen.Small, JSON: true, Top: true}
 	paths := gen.AllPaths(stCfg)
-	check(t, 0, budget(60, 3000), func(rt *rapid.T) {
+	check(t, 0, budget(160, 3000), func(rt *rapid.T) {
 		n := 24
 		ins := make([]c20Input, n)
 		for i := range ins {
